@@ -340,9 +340,20 @@ SetAfter(pre, S, op) ==
   IF op.kind = "del" THEN S \ {op.n}
   ELSE IF IsDup(pre, S, op) THEN S ELSE S \cup {op.n}
 
+(* "changes nothing": the root pointer and every field of every node of the
+   tree are as before.  (The rejected node itself is the caller's; the C code
+   does not touch it either, and the model checker verifies post = pre for the
+   model, but a version that initialised it first would still be correct --
+   for the real code that is lock-step drift, not a violation.) *)
+SameTree(pre, post, S) ==
+  /\ post.root = pre.root
+  /\ \A m \in S : /\ post.left[m] = pre.left[m] /\ post.right[m] = pre.right[m]
+                  /\ post.parent[m] = pre.parent[m] /\ post.height[m] = pre.height[m]
+                  /\ post.key[m] = pre.key[m]
+
 Judge(pre, S, op, ret, post, fwd, bwd) ==
   LET dup == IsDup(pre, S, op)
-      dv  == IF op.kind = "ins" /\ ( (dup /\ (ret # -1 \/ post # pre))
+      dv  == IF op.kind = "ins" /\ ( (dup /\ (ret # -1 \/ ~SameTree(pre, post, S)))
                                   \/ (~dup /\ ret # 0) )
              THEN {"dup"} ELSE {}
       sv  == StructViols(post, SetAfter(pre, S, op))
@@ -393,7 +404,7 @@ FastStructViols(t, S) == ViolsOfScan(t, S, Scan(t, t.root, NULL))
 
 FastJudgeScan(pre, S, op, ret, post, fwd, bwd, sc) ==
   LET dup == IsDup(pre, S, op)
-      dv  == IF op.kind = "ins" /\ ( (dup /\ (ret # -1 \/ post # pre))
+      dv  == IF op.kind = "ins" /\ ( (dup /\ (ret # -1 \/ ~SameTree(pre, post, S)))
                                   \/ (~dup /\ ret # 0) )
              THEN {"dup"} ELSE {}
       sv  == ViolsOfScan(post, SetAfter(pre, S, op), sc)
